@@ -26,13 +26,15 @@ type kase struct {
 	Kind string `json:"kind"` // file | journal | gen | journal-flatten | bigchunk
 	Seed uint64 `json:"seed"`
 	Ops  int    `json:"ops"`
+	// Ghost = "nil" forces a generational store without ghost generation (store/spec), "ghost" forces one
+	Ghost string `json:"ghost,omitempty"`
 }
 
 const (
-	keyAlias    = "journal-addr16-alias"
-	keyIterate  = "journal-addr16-iterate"
-	keyBigIter  = "table-iterate-record-over-4mib"
-	keyNilGhost = "generational-hasmany-nil-ghostgen"
+	keyAlias   = "journal-addr16-alias"
+	keyIterate = "journal-addr16-iterate"
+	keyBigIter = "table-iterate-record-over-4mib"
+	keyBigTol  = "table-tolerant-iterate-record-over-4mib"
 )
 
 var ctx = context.Background()
@@ -66,6 +68,10 @@ type run struct {
 }
 
 func (x *run) violate(key, what string) { x.e.Rep.Violate(key, what, x.k) }
+
+// tolerantBig: TolerantIterateAllChunks (fsck) shares the iteration loop; its >4 MiB panic was repaired
+// in dolt together with iterateAllChunks, so a recurrence is a plain violation.
+func (x *run) tolerantBig(what string) { x.violate(keyBigTol, what) }
 
 // readCheck: all read paths on a probe set
 func (x *run) readCheck(cs chunks.ChunkStore, probes []hash.Hash, flattened bool) {
@@ -113,11 +119,6 @@ func (x *run) readCheck(cs chunks.ChunkStore, probes []hash.Hash, flattened bool
 		for _, h := range probes {
 			_, present := x.written[h]
 			if absent.Has(h) == present {
-				if x.nilGhost && !present {
-					x.e.Rep.Known(keyNilGhost, fmt.Sprintf("GenerationalNBS.HasMany with ghostGen == nil (store/spec) reports the absent address %s as present while Has/Get report it absent: `if len(absent) == 0 || gcs.ghostGen == nil { return nil, err }` drops the absent set", nbsx.AddrHex(h)), x.k)
-					x.e.Rep.Hit("known:" + keyNilGhost)
-					continue
-				}
 				bad("HasMany", h, fmt.Sprintf("reported absent=%v, written=%v", absent.Has(h), present))
 			}
 		}
@@ -290,6 +291,12 @@ func (x *run) history() {
 		x.root = hash.Hash{}
 		journalNew := r.Bool()
 		x.nilGhost = r.Chance(1, 4) // store/spec opens generational stores without a ghost generation
+		switch x.k.Ghost {
+		case "nil":
+			x.nilGhost = true
+		case "ghost":
+			x.nilGhost = false
+		}
 		if x.nilGhost {
 			x.e.Rep.Hit("gen:nil-ghostgen")
 		}
@@ -423,8 +430,20 @@ func (x *run) bigChunk() {
 	x.readCheck(s, x.probes(), false)
 	res := hx.Recover(func() string { x.iterateCheck(s, false); return "" })
 	if res != "" {
-		x.e.Rep.Known(keyBigIter, "IterateAllChunks on a table file holding a record larger than 4 MiB panics ("+res+"): tableReader.iterateAllChunks slices a fixed 4 MiB buffer with the record length", x.k)
-		x.e.Rep.Hit("known:" + keyBigIter)
+		// repaired in dolt (fix: iterateAllChunks grows its buffer); a plain violation if it comes back
+		x.violate(keyBigIter, "IterateAllChunks on a table file holding a record larger than 4 MiB panics ("+res+")")
+	}
+	// the fsck iterator shares the loop
+	seen := 0
+	res = hx.Recover(func() string {
+		return fmt.Sprint(s.TolerantIterateAllChunks(ctx, func(c chunks.Chunk) {
+			if want, ok := x.written[c.Hash()]; ok && bytes.Equal(want, c.Data()) {
+				seen++
+			}
+		}, func(f string, err error) { seen = -1000 }))
+	})
+	if res != "<nil>" || seen != len(x.written) {
+		x.tolerantBig(fmt.Sprintf("TolerantIterateAllChunks on a table file holding a record larger than 4 MiB: %s, %d of %d chunks delivered intact", res, seen, len(x.written)))
 	}
 	x.e.Rep.Hit("bigchunk:ran")
 }
